@@ -75,7 +75,8 @@ def model_cli(model, argv, files, stdin, rimurc, rimurc_path, resources_sent):
     fl = dict(files)
     if rimurc is not None:
         fl[rimurc_path] = rimurc
-    r = model.op(['rimuc', '\x1f'.join(argv), stdin, rimurc_path, '\x1f'.join('%s\x1e%s' % (k, v) for k, v in fl.items())])
+    # framing characters from the private use area (the generators produce U+001E / U+001F as content)
+    r = model.op(['rimuc', '\ue01f'.join(argv), stdin, rimurc_path, '\ue01f'.join('%s\ue01e%s' % (k, v) for k, v in fl.items())])
     if r[0] != 'cli':
         return {'raw': r}
     return {'exit': int(r[1]), 'stdout': r[2], 'stderr': r[3], 'outfile': (r[4], r[5]) if r[4] else None}
@@ -272,8 +273,14 @@ class C18(Prop):
         inputs = []      # (label, source or None, safe mode, verbatim)
         if not no_rimurc and case['rimurc'] is not None:
             inputs.append((rimurc_path, case['rimurc'], 0, False))
+        stdin_left = [case['stdin']]
         for f in prepend_files:
-            inputs.append((f, files.get(f), 0, f.endswith('.html') and os.path.splitext(f)[1] == '.html'))
+            if f == '-':
+                # `-` is standard input wherever it is named (rendered under the requested safe mode, read once)
+                inputs.append(('/dev/stdin', stdin_left[0], safe, pass_through))
+                stdin_left[0] = ''
+            else:
+                inputs.append((f, files.get(f), 0, f.endswith('.html') and os.path.splitext(f)[1] == '.html'))
         if prepend:
             inputs.append(('--prepend options', prepend, 0, False))
         if layout:
@@ -282,7 +289,6 @@ class C18(Prop):
             named = ['-']
         elif len(named) == 1 and layout and named[0] != '-' and not outfile:
             outfile = os.path.splitext(named[0])[0] + '.html'
-        stdin_left = [case['stdin']]
         for f in named:
             if f == '-':
                 inputs.append(('/dev/stdin', stdin_left[0], safe, pass_through))
